@@ -279,7 +279,7 @@ def strat_refusal():
         lambda at, q, i, j, m, slot, bad, x: dict(at, quantity=q, i=i, j=j, mrep=m, slot=slot, bad=bad, x=x),
         _ads_T(), st.sampled_from(["pressure", "loading", "material", "temperature"]),
         st.integers(0, 26), st.integers(0, 26), st.integers(0, 18),
-        st.sampled_from(["mode_from", "mode_to", "unit_from", "unit_to", "basis_material", "unit_material"]),
+        st.sampled_from(["mode_from", "mode_to", "unit_from", "unit_to", "unit_both", "basis_material", "unit_material"]),
         st.one_of(st.none(), st.sampled_from(_UNKNOWN)),
         st.floats(1e-3, 1e3))
 
@@ -316,6 +316,20 @@ def check_refusal(desc, ctx):
             if bad in modes:
                 return
             # an unknown mode/basis is always consulted
+        elif slot == "unit_both":
+            # the same unknown unit on both sides: still an unknown unit that the conversion is asked to honour
+            if not bad or all(bad in t for t in tables.values() if t is not None and
+                              (tables.get(args["mode_from"]) is t or tables.get(args["mode_to"]) is t)):
+                return
+            if tables.get(args["mode_from"]) is None and tables.get(args["mode_to"]) is None:
+                return  # both sides dimensionless: no unit is consulted
+            bad_from = tables.get(args["mode_from"]) is not None and bad not in tables[args["mode_from"]]
+            bad_to = tables.get(args["mode_to"]) is not None and bad not in tables[args["mode_to"]]
+            if not (bad_from or bad_to):
+                return
+            args["unit_from"] = bad
+            args["unit_to"] = bad
+            slot = "unit_to"
         elif slot in ("unit_from", "unit_to"):
             side_mode = args["mode_from"] if slot == "unit_from" else args["mode_to"]
             table = tables.get(side_mode)
@@ -343,7 +357,8 @@ def check_refusal(desc, ctx):
             else:
                 if bad is not None and bad in ru.MATERIAL_BASES[args["basis_material"]]:
                     return
-        args[slot] = bad
+        if desc["slot"] != "unit_both":
+            args[slot] = bad
         if q == "pressure":
             call = lambda: cm.c_pressure(x, args["mode_from"], args["mode_to"], args["unit_from"], args["unit_to"],  # noqa
                                          adsorbate=ads, temp=T)
